@@ -254,6 +254,8 @@ theorem step_inv (st : State) (op : Op) (hi : Inv st) (hok : opOK st op = true) 
             obtain ⟨_, hlt⟩ := ensure_rebuild he
             exact inv_dropAll (st := st)
               (rebuild_take_inv hi.db hgtree (fun S hS => Nat.le_of_lt (hlt S hS)) n).1
+  | delstamp => exact inv_dropAll (st := st) (delStampW_inv hi.db)
+  | crashimport n => exact inv_dropAll (st := st) (drop_take_inv hi.db n)
   | dump => exact hi
   | stress => exact hi
 
@@ -415,6 +417,8 @@ theorem step_consistent (st : State) (op : Op) (hi : Inv st) (hok : opOK st op =
     simp only [step, stepWith]
     repeat' split
     all_goals rfl
+  | delstamp => rfl
+  | crashimport n => rfl
   | dump => rfl
   | stress => rfl
 
